@@ -149,7 +149,14 @@ def local_assignments(fn, name):
                 if isinstance(t, ast.Name) and t.id == name:
                     out.append(n.value)
                 elif isinstance(t, (ast.Tuple, ast.List)) and any(isinstance(e, ast.Name) and e.id == name for e in t.elts):
-                    out.append(None)  # unpacking: opaque
+                    # unpacking of a tuple display (or of a choice between tuple displays) of the same arity is element-wise assignment
+                    idx = [i for i, e in enumerate(t.elts) if isinstance(e, ast.Name) and e.id == name][0]
+                    alts = [n.value.body, n.value.orelse] if isinstance(n.value, ast.IfExp) else [n.value]
+                    if all(isinstance(a_, (ast.Tuple, ast.List)) and len(a_.elts) == len(t.elts) and not any(isinstance(x, ast.Starred) for x in a_.elts) for a_ in alts) \
+                            and not any(isinstance(x, ast.Starred) for x in t.elts):
+                        out.extend(a_.elts[idx] for a_ in alts)
+                    else:
+                        out.append(None)  # unpacking: opaque
         elif isinstance(n, ast.AugAssign) and isinstance(n.target, ast.Name) and n.target.id == name:
             out.append(None)
         elif isinstance(n, ast.AnnAssign) and isinstance(n.target, ast.Name) and n.target.id == name and n.value is not None:
